@@ -1,4 +1,5 @@
 import GB.C20.Model
+import GB.C20.Spec
 import GB.C03.Model
 /-
   C20 → C03 adapter: the template AST of the gwbased parser model (`GwTemplate`, segments `PSeg`) as the AST the
@@ -31,5 +32,71 @@ def toC03 (g : GwTemplate) : C03.Tmpl := ⟨g.segs.map PSeg.toC03, g.verb⟩
 
 /-- gwbased.Parse as the `parse` parameter of the C06×C03 composition -/
 def gwC03 (s : Bytes) : Option C03.Tmpl := (gwParse s).toOption.map toC03
+
+/-! ### the grammar's abstract syntax in C03's AST -/
+
+def ISeg.c03 : ISeg → C03.VSeg
+  | .wild => .star
+  | .deep => .deep
+  | .lit l => .lit l
+
+def Seg.c03 : Seg → C03.Seg
+  | .wild => .plain .star
+  | .deep => .plain .deep
+  | .lit l => .plain (.lit l)
+  | .var p none => .var (joinWith cDot p) [.star]
+  | .var p (some is) => .var (joinWith cDot p) (is.map ISeg.c03)
+
+/-- the template a string of the (relaxed) grammar denotes, as C03 sees it: the root template "/" is the single
+    literal `eof` (types.go / compile.go: it compiles to the empty literal) -/
+def tmplC03 (t : Tmpl) : C03.Tmpl :=
+  ⟨if t.segs.isEmpty then [.plain (.lit C03.eof)] else t.segs.map Seg.c03, t.verbStr⟩
+
+/-! ### `routing.buildPattern`
+
+  ```go
+  func buildPattern(route string) (runtime.Pattern, error) {
+      compiler, err := httprule.Parse(route)          // httprule = internal/httprule/gwbased
+      if err != nil { return runtime.Pattern{}, … }
+      tp := compiler.Compile()
+      pattern, routeErr := runtime.NewPattern(tp.Version, tp.OpCodes, tp.Pool, tp.Verb)
+      if routeErr != nil { return runtime.Pattern{}, … }
+      return pattern, nil
+  }
+  ```
+  Exactly `Parse ▸ Compile ▸ NewPattern`: there is no other way to a pattern (regenerated facts `c20Bp*`,
+  `C20_facts_buildPattern`). `Compile` and `NewPattern` are the C03 slice's models. -/
+
+def buildPatternM (route : Bytes) : Option C03.Pattern :=
+  match gwParse route with
+  | .error _ => none
+  | .ok g =>
+    let tp := C03.compile (toC03 g)
+    C03.newPattern 1 tp.opcodes tp.pool tp.verb
+
+/-- what `buildPattern` must accept: the text is derivable in the relaxed grammar and has at most one `**`
+    (`runtime.NewPattern` rejects more) -/
+def validTemplateB (s : Bytes) : Bool :=
+  match specParseWith true s with
+  | some t => decide (C03.deepCount (tmplC03 t).segs ≤ 1)
+  | none => false
+
+/-! #### the seeded "plain literal route" fast path (C20-m5), modelled only to exhibit the witness -/
+
+def isLiteralRouteM (route : Bytes) : Bool :=
+  match route with
+  | c :: body =>
+    c == cSlash && !(route.any (fun x => x == cLBrace || x == cStar || x == cColon || x == cPct)) &&
+      (body.isEmpty || (splitOnByte cSlash body).all (fun seg => !seg.isEmpty))
+  | [] => false
+
+/-- `literalPattern`: one OpLitPush per `strings.Split(route[1:], "/")` segment, de-duplicated pool -/
+def literalPatternM (route : Bytes) : Option C03.Pattern :=
+  let segs := splitOnByte cSlash (route.drop 1)
+  let pool := segs.foldl (fun pool s => if pool.contains s then pool else pool ++ [s]) []
+  C03.newPattern 1 (segs.flatMap (fun s => [C03.opLitPush, pool.idxOf s])) pool []
+
+def buildPatternFast (route : Bytes) : Option C03.Pattern :=
+  if isLiteralRouteM route then literalPatternM route else buildPatternM route
 
 end GB.C20
